@@ -5,6 +5,10 @@ Writes the outcome into meta.json["confirmed"].  Scratch worktrees are removed a
 import json, os, subprocess, sys, tempfile, shutil
 from concurrent.futures import ThreadPoolExecutor
 VERIF = os.path.dirname(os.path.dirname(os.path.abspath(__file__)))
+DIR = "seeded"
+if "--dir" in sys.argv:
+    k = sys.argv.index("--dir"); DIR = sys.argv[k + 1]; del sys.argv[k:k + 2]
+WANT_CHANGED = 1 if DIR == "seeded" else 0      # demo exit code expected with the change applied
 PY = "/venv/bin/python"
 
 def sh(cmd, cwd=None, env=None, timeout=1800):
@@ -12,7 +16,7 @@ def sh(cmd, cwd=None, env=None, timeout=1800):
     return p.returncode, (p.stdout + p.stderr)
 
 def confirm(name):
-    d = os.path.join(VERIF, "seeded", name)
+    d = os.path.join(VERIF, DIR, name)
     wt = tempfile.mkdtemp(prefix="aovc_seed_%s_" % name)
     os.rmdir(wt)
     out = {"repo_head": None}
@@ -32,17 +36,17 @@ def confirm(name):
         rc, o = sh("%s %s/demo.py" % (PY, d), cwd=wt, env=env)
         out["demo_changed_exit"] = rc
         out["demo_changed_tail"] = "\n".join(o.strip().splitlines()[-3:])[-400:]
-        out["ok"] = out["demo_clean_exit"] == 0 and out["tests_pass_with_change"] and out["demo_changed_exit"] == 1
+        out["ok"] = out["demo_clean_exit"] == 0 and out["tests_pass_with_change"] and out["demo_changed_exit"] == WANT_CHANGED
     finally:
         sh("git -C /repo worktree remove --force %s" % wt)
         shutil.rmtree(wt, ignore_errors=True)
     return name, out
 
-names = sorted(n for n in os.listdir(os.path.join(VERIF, "seeded")) if os.path.exists(os.path.join(VERIF, "seeded", n, "patch.diff")))
+names = sorted(n for n in os.listdir(os.path.join(VERIF, DIR)) if os.path.exists(os.path.join(VERIF, DIR, n, "patch.diff")))
 if len(sys.argv) > 1: names = [n for n in names if any(a in n for a in sys.argv[1:])]
 with ThreadPoolExecutor(6) as ex:
     for name, out in ex.map(confirm, names):
-        mp = os.path.join(VERIF, "seeded", name, "meta.json")
+        mp = os.path.join(VERIF, DIR, name, "meta.json")
         try: meta = json.load(open(mp))
         except Exception: meta = {}
         meta["confirmed"] = out
